@@ -223,6 +223,11 @@ class Interp:
                 lcc.log_check(msg, bool(act["ok"]), None)
             elif a == "step":
                 lcc.set_step(act["d"])
+            elif a == "detached":
+                # the deprecated public context manager around an empty body (its DeprecationWarning is left to the default
+                # filters: the filter list is process-wide, not to be touched from worker threads)
+                with lcc.detached_step(act["d"]):
+                    pass
             elif a == "url":
                 lcc.log_url("http://example.test/" + msg.replace("#", "/"), msg)
             elif a == "attach":
